@@ -256,7 +256,7 @@ def main():
     penalty_matrix.add(rep, thorough, monotonic=False, name="C09-penalty-matrix")
     import glam_exact
     glam_exact.add(rep, thorough, monotonic=False, name="C09-glamfit-exact")
-    rep.assume("PARTIAL: decided up to the linear solver and rounding. The WHOLE glamfit_complex is executed exactly (C09-glamfit-exact): the system it hands to cholesky_solve is the weighted normal matrix plus the penalty and the weighted moment vector, and what it writes out is the solver's result - so with a solver that solves its system the output is the exact minimiser (checked explicitly, G4). NOT decided: that cholesky_solve / SuiteSparse solve the system to single-precision accuracy, and floating-point rounding anywhere",
+    rep.assume("PARTIAL: decided up to cholmod's factorisation / triangular solves (assumed exact) and rounding; cholesky_solve's own code IS executed on the system of every fit (G5, extracted with C11's machinery). The WHOLE glamfit_complex is executed exactly (C09-glamfit-exact): the system it hands to cholesky_solve is the weighted normal matrix plus the penalty and the weighted moment vector, and what it writes out is the solver's result - so with a solver that solves its system the output is the exact minimiser (checked explicitly, G4). NOT decided: that cholesky_solve / SuiteSparse solve the system to single-precision accuracy, and floating-point rounding anywhere",
                "decided as well: the ASSEMBLED penalty matrix (add_penalty_term over all dimensions, Kronecker extension included) equals sum_i lambda_i (I x D_i'D_i x I) exactly, D_i the textbook p_i-th derivative-coefficient operator: the quadratic form is the penalty the property names",
                "also decided: the design matrix bsplinebasis builds is the matrix of basis-function values at the abscissae (exact, incl. abscissae on knots), and fit() requests one penalty term per dimension with that dimension's order, penalty order and smoothing (executed from the extracted fit(), C fitter hooked)",
                "decided: the rows divided_diffs produces are exactly the map from B-spline coefficients to the coefficients of the penaltyOrder-th derivative (so the penalty is the sum of squares the property names), and calc_penalty lays them out as an (nsplines-p) x nsplines band matrix (with the T-spline conversion exactly in the monotonic dimension)",
